@@ -7,6 +7,7 @@ from vp.engine import SubCheck
 
 PROPERTY = "C10"
 RULE = (
+    "(extended 2) large: masks with more than 2^15 (quick) and 2^16 (thorough) unmasked pixels (holes, notch, isolated pixel) through the same edge / border / blurring oracles. "
     "(extended) sub-check derived: all sets read on a parent mask, then on a mask derived from it by invert / copy+edit / copy.copy+edit / deepcopy+edit / in-place edit, each against the definitions for its CURRENT contents, plus one held DeriveIndexes2D object read several times in generated order. "
     "enum: every boolean mask with >=1 unmasked pixel on every shape with H*W<=12 (quick) / <=16 (thorough), "
     "including unmasked pixels on the outer ring, edge/border views checked on each and blurring masks for "
@@ -290,12 +291,40 @@ def body_derived(case, ctx):
         first[name] = True
 
 
+# ---------------------------------------------------------------------------------------------
+# large masks: more unmasked pixels than a 16-bit index can address
+def cases_large(tier):
+    quick = [(192, 193, (3, 3)), (259, 261, (3, 5))]
+    more = [(130, 300, (5, 3)), (300, 226, (1, 3))]
+    for h, w, ks in (quick if tier == "quick" else quick + more):
+        yield {"h": h, "w": w, "kernel_shape": list(ks)}
+
+
+def body_large(case, ctx):
+    h, w = case["h"], case["w"]
+    kh, kw = case["kernel_shape"]
+    m = np.ones((h, w), dtype=bool)
+    m[kh // 2 + 1:h - kh // 2 - 1, kw // 2 + 1:w - kw // 2 - 1] = False
+    # holes, a masked bar that cuts a notch into the region, an isolated unmasked pixel inside a hole
+    m[h // 3:h // 3 + 7, w // 4:w // 4 + 9] = True
+    m[h // 3 + 3, w // 4 + 4] = False
+    m[2 * h // 3:2 * h // 3 + 2, : w // 2] = True
+    m[h // 2, w // 2] = True
+    n = int((~m).sum())
+    ctx.nt(n > 2 ** 15)
+    ctx.label("large:n>2^16" if n > 2 ** 16 else "large:n>2^15")
+    check_edge_border(m, (0.5, 0.25), (1.0, -2.0), ctx, pre="large/")
+    check_blurring(m, (kh, kw), (0.5, 0.25), (1.0, -2.0), ctx, pre="large/")
+
+
+
 SUBCHECKS = [
     SubCheck("enum", body_enum, cases=cases_enum, shards={"quick": 16, "thorough": 16}),
     SubCheck("given", body_given, strategy=given_case(), examples={"quick": 400, "thorough": 6000},
              shards={"quick": 2, "thorough": 8}),
     SubCheck("derived", body_derived, strategy=derived_case(), examples={"quick": 400, "thorough": 6000},
              shards={"quick": 2, "thorough": 8}),
+    SubCheck("large", body_large, cases=cases_large, shards={"quick": 2, "thorough": 4}),
     SubCheck("even-kernel", body_even_kernel, strategy=even_case(), examples={"quick": 40, "thorough": 200},
              shards={"quick": 1, "thorough": 1}),
 ]
